@@ -1,7 +1,8 @@
 //! C03 — configurations execute with structured-program semantics and a fixed lifecycle.
 //! Code: mahf::Configuration::{run,builder}, ConfigurationBuilder::{do_,while_,if_,if_else_,scope_,build}, mahf::components::{Block,Loop,Branch,Scope}::{init,require,execute}
 //! Code: mahf::State::with_inner_state, mahf::state::StateReq::require, mahf::state::common::Iterations
-//! Out: loop trees are thorough-tier best effort (they ran out of 16-28 GB: every pass repeats several registry look-ups that the engine cannot fold, times the fault choice); the loop clause proper (n passes, n+1 tests, re-initialisation, pass counter) is decided under C10 with a trivial body; trees with more than 4 constructs, loops with more than 2 passes per entry, custom Scope state_init/states_merge closures; error *messages* (the eyre shim drops them)
+//! Out: trees with more than 4 constructs, loops with more than 2 passes per entry, custom Scope state_init/states_merge closures; error *messages* (the eyre shim drops them)
+//! Assume: per-function recursion bounds (reclimit -> CBMC --unwindset, unwinding assertions on): Loop/Scope::{init,require,execute} at their nesting depth, StateRegistry::find/find_mut at scope depth + 1 — without them the engine unwinds the spurious self-dispatch of every `dyn Component` call and the parent-chain walk of every registry look-up to the global bound (the loop trees then need > 28 GB)
 //! Assume: leaves and conditions are harness types that log (phase, id) events; condition outcomes are symbolic scripts (2 symbolic answers, then false); the fault point is a symbolic choice among the listed events of each tree; expected traces come from a reference interpreter over the same tree description
 use better_any::{Tid, TidAble};
 use derive_more::{Deref, DerefMut};
@@ -68,7 +69,9 @@ impl CustomState<'_> for Missing {}
 
 /// Leaf component (id = const parameter): logs every lifecycle call; `execute` bumps the caller-visible `Counter`
 /// (non-shadowed outer state) and inserts `Mark<id>` into the scope it runs in.
-/// id 7 additionally requires a state nobody provides; id 6 shadows `Counter` in its scope.
+/// id 7 additionally requires a state nobody provides; id 6 shadows `Counter` in its scope;
+/// id 4 is the light leaf used inside loops (no mark insertion: every registry insertion costs
+/// the engine ~50 K steps per loop pass).
 #[derive(Clone, Serialize)]
 pub struct Leaf<const ID: u8>;
 fn fail() -> ExecResult<()> {
@@ -220,12 +223,12 @@ fn want_missing(_fx: &mut Fx) -> R {
 fn want_while(fx: &mut Fx) -> R {
     fx.iters_present = true;
     e(INIT, 10)?;
-    e(INIT, 1)?;
+    e(INIT, 4)?;
     e(REQ, 10)?;
-    e(REQ, 1)?;
+    e(REQ, 4)?;
     e(INIT, 10)?; // the loop re-initialises its condition on entry
     while ans(10)? {
-        x(fx, 1, false, false)?;
+        x(fx, 4, false, false)?;
         fx.iters += 1;
     }
     Ok(())
@@ -285,9 +288,9 @@ fn want_while_scope(fx: &mut Fx) -> R {
     e(REQ, 10)?;
     e(INIT, 10)?;
     while ans(10)? {
-        e(INIT, 1)?;
-        e(REQ, 1)?;
-        x(fx, 1, true, false)?;
+        e(INIT, 4)?;
+        e(REQ, 4)?;
+        x(fx, 4, true, false)?;
         fx.iters += 1;
     }
     Ok(())
@@ -296,15 +299,15 @@ fn want_nested(fx: &mut Fx) -> R {
     fx.iters_present = true;
     e(INIT, 10)?;
     e(INIT, 11)?;
-    e(INIT, 1)?;
+    e(INIT, 4)?;
     e(REQ, 10)?;
     e(REQ, 11)?;
-    e(REQ, 1)?;
+    e(REQ, 4)?;
     e(INIT, 10)?;
     while ans(10)? {
         e(INIT, 11)?;
         while ans(11)? {
-            x(fx, 1, false, false)?;
+            x(fx, 4, false, false)?;
             fx.iters += 1;
         }
         fx.iters += 1;
@@ -314,12 +317,12 @@ fn want_nested(fx: &mut Fx) -> R {
 fn want_scope_while(fx: &mut Fx) -> R {
     // scope{while(c10){L1}} — the loop counter lives (and dies) inside the scope
     e(INIT, 10)?;
-    e(INIT, 1)?;
+    e(INIT, 4)?;
     e(REQ, 10)?;
-    e(REQ, 1)?;
+    e(REQ, 4)?;
     e(INIT, 10)?;
     while ans(10)? {
-        x(fx, 1, true, false)?;
+        x(fx, 4, true, false)?;
     }
     Ok(())
 }
@@ -384,17 +387,17 @@ pub fn h_c03_missing_requirement() {
     }
 }
 
-/// @h tier=thorough bound="tree: while(c10){L1} — 0 or 1 pass (symbolic), fault in {none, execute L1}" unwind=5 cost=9 mem=40 timeout=3000
+/// @h tier=quick bound="tree: while(c10){L1} — 0 or 1 pass (symbolic), fault in {none, execute L1}" unwind=3 cost=9 mem=16 timeout=900 reclimit="<mahf::components::(control_flow::)?Loop<.*> as .*Component<.*>>::(init|require|execute)=1;mahf::state::(registry::)?StateRegistry::<.*>::find(_mut)?::<.*>=2"
 #[cfg_attr(kani, kani::proof)]
-#[cfg_attr(kani, kani::unwind(5))]
+#[cfg_attr(kani, kani::unwind(3))]
 pub fn h_c03_while() {
-    run_tree_n(want_while, &[(EXEC, 1)], Configuration::new(Loop::new(cond::<10>(), leaf::<1>())), 1);
+    run_tree_n(want_while, &[(EXEC, 4)], Configuration::new(Loop::new(cond::<10>(), leaf::<4>())), 1);
 }
-/// @h tier=thorough bound="tree: while(c10){L1} — <= 2 passes (symbolic), fault in {none, execute L1, evaluate c10}" unwind=5 cost=9 mem=40 timeout=3000
+/// @h tier=quick bound="tree: while(c10){L1} — <= 2 passes (symbolic), fault in {none, execute L1, evaluate c10}" unwind=4 cost=9 mem=16 timeout=900 reclimit="<mahf::components::(control_flow::)?Loop<.*> as .*Component<.*>>::(init|require|execute)=1;mahf::state::(registry::)?StateRegistry::<.*>::find(_mut)?::<.*>=2"
 #[cfg_attr(kani, kani::proof)]
-#[cfg_attr(kani, kani::unwind(5))]
+#[cfg_attr(kani, kani::unwind(4))]
 pub fn h_c03_while_2() {
-    run_tree_n(want_while, &[(EXEC, 1), (EVAL, 10)], Configuration::new(Loop::new(cond::<10>(), leaf::<1>())), 2);
+    run_tree_n(want_while, &[(EXEC, 4), (EVAL, 10)], Configuration::new(Loop::new(cond::<10>(), leaf::<4>())), 2);
 }
 
 /// @h tier=quick bound="tree: if(c10){L1}else{L2} — symbolic outcome, fault in {none, execute L2}" unwind=5 cost=5 mem=12 timeout=900
@@ -425,23 +428,23 @@ pub fn h_c03_scope_shadow() {
     run_tree(want_shadow, &[], Configuration::builder().scope_(|b| b.do_(leaf::<6>()).do_(leaf::<1>())).do_(leaf::<2>()).build());
 }
 
-/// @h tier=quick bound="tree: while(c10){scope{L1}} — scope body initialised on every entry; fault in {none, execute L1}" unwind=5 cost=8 mem=16 timeout=900
+/// @h tier=quick bound="tree: while(c10){scope{L1}} — scope body initialised on every entry; fault in {none, execute L1}" unwind=4 cost=8 mem=16 timeout=900 reclimit="<mahf::components::(control_flow::)?Loop<.*> as .*Component<.*>>::(init|require|execute)=1;<mahf::components::(control_flow::)?Scope<.*> as .*Component<.*>>::(init|require|execute)=1;mahf::state::(registry::)?StateRegistry::<.*>::find(_mut)?::<.*>=3"
 #[cfg_attr(kani, kani::proof)]
-#[cfg_attr(kani, kani::unwind(5))]
+#[cfg_attr(kani, kani::unwind(4))]
 pub fn h_c03_while_scope() {
-    run_tree(want_while_scope, &[(EXEC, 1)], Configuration::new(Loop::new(cond::<10>(), Scope::new_with(|_| Ok(()), leaf::<1>(), |_, _| Ok(())))));
+    run_tree(want_while_scope, &[(EXEC, 4)], Configuration::new(Loop::new(cond::<10>(), Scope::new_with(|_| Ok(()), leaf::<4>(), |_, _| Ok(())))));
 }
 
-/// @h tier=thorough bound="tree: while(c10){while(c11){L1}} — both scripts symbolic (<= 2x2 passes), shared pass counter" unwind=5 cost=9 mem=40 timeout=3000 dead="a failing run"
+/// @h tier=quick bound="tree: while(c10){while(c11){L1}} — both scripts symbolic (<= 2x2 passes), shared pass counter" unwind=4 cost=9 mem=20 timeout=1200 dead="a failing run" reclimit="<mahf::components::(control_flow::)?Loop<.*> as .*Component<.*>>::(init|require|execute)=2;mahf::state::(registry::)?StateRegistry::<.*>::find(_mut)?::<.*>=2"
 #[cfg_attr(kani, kani::proof)]
-#[cfg_attr(kani, kani::unwind(5))]
+#[cfg_attr(kani, kani::unwind(4))]
 pub fn h_c03_nested_while() {
-    run_tree(want_nested, &[], Configuration::new(Loop::new(cond::<10>(), Loop::new(cond::<11>(), leaf::<1>()))));
+    run_tree(want_nested, &[], Configuration::new(Loop::new(cond::<10>(), Loop::new(cond::<11>(), leaf::<4>()))));
 }
 
-/// @h tier=thorough bound="tree: scope{while(c10){L1}} — fault in {none, execute L1}" unwind=5 cost=9 mem=40 timeout=3000
+/// @h tier=quick bound="tree: scope{while(c10){L1}} — fault in {none, execute L1}" unwind=4 cost=9 mem=16 timeout=900 reclimit="<mahf::components::(control_flow::)?Loop<.*> as .*Component<.*>>::(init|require|execute)=1;<mahf::components::(control_flow::)?Scope<.*> as .*Component<.*>>::(init|require|execute)=1;mahf::state::(registry::)?StateRegistry::<.*>::find(_mut)?::<.*>=3"
 #[cfg_attr(kani, kani::proof)]
-#[cfg_attr(kani, kani::unwind(5))]
+#[cfg_attr(kani, kani::unwind(4))]
 pub fn h_c03_scope_while() {
-    run_tree(want_scope_while, &[(EXEC, 1)], Configuration::new(Scope::new_with(|_| Ok(()), Loop::new(cond::<10>(), leaf::<1>()), |_, _| Ok(()))));
+    run_tree(want_scope_while, &[(EXEC, 4)], Configuration::new(Scope::new_with(|_| Ok(()), Loop::new(cond::<10>(), leaf::<4>()), |_, _| Ok(()))));
 }
